@@ -68,7 +68,18 @@ BOUNDS = {
 def functions():
     return [S.normalize_index, S.check_index, S.sanitize_index, S._sanitize_index_element, S.normalize_slice,
             S.posify_index, S.replace_ellipsis, S.slice_array, S.slice_with_newaxes, S.slice_wrap_lists,
-            S.slice_slices_and_integers, S._slice_1d, S.new_blockdim]
+            S.slice_slices_and_integers, S._slice_1d, S.new_blockdim, S.take, S.slice_with_int_dask_array,
+            S.slice_with_int_dask_array_on_axis, S.slice_with_bool_dask_array, _fn("dask.array._shuffle", "_shuffle"),
+            _fn("dask.array.chunk", "slice_with_int_dask_array"), _fn("dask.array.chunk", "slice_with_int_dask_array_aggregate"),
+            _fn("dask.array.core", "_vindex"), _fn("dask.array.core", "_vindex_array"), _fn("dask.array.core", "BlockView.__getitem__")]
+
+
+def _fn(mod, name):
+    import importlib
+    o = importlib.import_module(mod)
+    for part in name.split("."):
+        o = getattr(o, part)
+    return o
 
 
 def _patches():
